@@ -130,7 +130,7 @@ def check_poles_call(ctx, tag, Ad, Bn, dt, methodSy, nxseg, out):
             continue
         d = gen.multiset_dist(got, keep) if len(got) else 0.0
         ctx.maxi(f"{tag}: worst distance / (1e-8 kappa)", d / tol)
-        if d > tol:
+        if not (d <= tol):
             dc = gen.multiset_dist(got, lam[lam.real >= 0]) if (lam.real >= 0).any() else np.inf
             ctx.fail("poles:not_the_stable_roots" + (":unstable_kept_instead" if dc <= tol else ""),
                      f"{tag}: order {n}: reported poles differ from the stable mapped roots by {d:.2e} (tol {tol:.1e}, dt={dt:.4g}, method {methodSy})")
